@@ -1,5 +1,5 @@
 SPECIFICATION Spec
-CONSTANTS MaxOps = 3  Dev = {}  Kty = "OKP"
+CONSTANTS MaxOps = 3  Dev = {}  Kty = "OKP"  ExportEvery = 1
 INVARIANT PublicClean
 INVARIANT PrivateOnPublicIsError
 INVARIANT NoPrivateGain
